@@ -68,6 +68,24 @@ pub fn build(rng: &mut Rng, i: usize) -> PDB {
             }
         }
     }
+    // numbers at the ends of their columns: the last residue of the structure 9999, the first -999 (not 9999 directly before a
+    // residue 0: that is what a wrapped number looks like)
+    if !friendly && rng.chance(1, 6) {
+        let starts_at_zero = pdb.residues().next().map_or(false, |r| r.serial_number() == 0);
+        let n_models = pdb.model_count();
+        for mi in 0..n_models {
+            if let Some(m) = pdb.model_mut(mi) {
+                let n = m.residue_count();
+                if rng.chance(1, 2) && !(starts_at_zero && n_models > 1) {
+                    if let Some(r) = m.residues_mut().nth(n.saturating_sub(1)) {
+                        r.set_serial_number(9999);
+                    }
+                } else if let Some(r) = m.residues_mut().next() {
+                    r.set_serial_number(-999);
+                }
+            }
+        }
+    }
     // model serial numbers of one to four digits
     let first = *rng.pick(&[0usize, 1, 1, 7, 9, 10, 98, 999, 4242, 9997]);
     let single = pdb.model_count() == 1;
@@ -141,9 +159,9 @@ pub fn build(rng: &mut Rng, i: usize) -> PDB {
         let t: Vec<&str> = (0..1 + rng.below(6)).map(|_| *rng.pick(&words)).collect();
         let _ = pdb.add_remark(n, t.join(" "));
     }
-    if rng.chance(2, 3) {
-        // now and then an edge that the nine columns of CRYST1 cannot hold (no rule of validate_pdb looks at the cell)
-        let long_edge = rng.chance(1, 25);
+    // every twentieth structure an edge that the nine columns of CRYST1 cannot hold (no rule of validate_pdb looks at the cell)
+    let long_edge = i % 20 == 4;
+    if long_edge || rng.chance(2, 3) {
         pdb.unit_cell = Some(UnitCell::new(
             if long_edge { 100_000.0 + rng.below(900_000) as f64 + 0.5 } else { value(rng, 1_000, 99_999_999, 1000.0) },
             value(rng, 1_000, 99_999_999, 1000.0),
@@ -275,6 +293,9 @@ pub fn run(seed: u64, count: usize, thorough: bool, out: &mut Out) {
         let pdb = build(&mut rng, i);
         // the property speaks about structures on which the PDB-specific validation reports nothing
         let quiet = validate_pdb(&pdb).is_empty();
+        // the converse clause: what the validation reports is what the documented column ranges call for, nothing more
+        // (judged by the C18 oracle: one rule per documented range)
+        out.case("C18", call("validate_pdb", vec![crate::c18::float_table(), crate::snap::pdb(&pdb, &crate::snap::atom)]), crate::c18::diags(&validate_pdb(&pdb)), "prop:fits-columns-passes", true);
         out.count(if quiet { "validation:silent" } else { "validation:reports" });
         out.count(&format!("models:{}", pdb.model_count()));
         if !quiet {
